@@ -412,6 +412,18 @@ Record mcase := {
   m_got_response : bool;  (* the client received a response to the late request *)
   m_eof : bool            (* the client saw its socket closed *)
 }.
+(* ---------- the proxy's exported count of open connections (gauge listener_cx_active) ---------- *)
+Record gcase := {
+  g_served : bool;     (* the well-behaved client was served *)
+  g_before : Z;        (* gauge once every client of the scenario has been dealt with, before shutdown *)
+  g_open_before : Z;   (* client sockets of the scenario the proxy had not closed at that moment *)
+  g_after : Z          (* gauge after Run returned *)
+}.
+(* "the proxy's count of open connections always returns to zero": it equals the connections still
+   open before shutdown and is zero afterwards *)
+Definition gcase_prop_ok (g : gcase) : bool :=
+  g_served g && (g_before g =? g_open_before g) && (g_after g =? 0).
+
 Definition mcase_prop_ok (m : mcase) : bool := (m_upstream_after m =? 0) && negb (m_got_response m) && m_eof m.
 
 (* the checker used on recorded runs: only observable labels, and accepted by the search *)
